@@ -83,4 +83,15 @@ def fpmTable (m n My Mx : Nat) (dx efl lam fdx shx shy : Float) (mask f : Array 
 def fpmPoint (m n My Mx : Nat) (dx efl lam fdx shx shy : Float) (mask f : Array (Array C)) (j i : Nat) : C :=
   toFpmAndBack eF Cx.ofReal Float.sqrt m n My Mx dx efl lam fdx shx shy (fun k l => getC mask k l) (fun a b => getC f a b) j i
 
+/-- model of `Wavefront.babinet` as a table: complement of the mask, `fpmTable` without shift, difference, Lyot stop -/
+def babTable (m n My Mx : Nat) (dx efl lam fdx : Float) (lyot mask f : Array (Array C)) : Array (Array C) :=
+  let comp : Array (Array C) := Model.C01.tab2 My Mx fun k l => (Num.ofInt 1 : C) - getC mask k l
+  let back := fpmTable m n My Mx dx efl lam fdx 0 0 comp f
+  Model.C01.tab2 m n fun j i => getC lyot j i * (getC f j i - getC back j i)
+
+/-- one point straight from `Model.C05.babinet` -/
+def babPoint (m n My Mx : Nat) (dx efl lam fdx : Float) (lyot mask f : Array (Array C)) (j i : Nat) : C :=
+  Model.C05.babinet eF Cx.ofReal Float.sqrt m n My Mx dx efl lam fdx (fun a b => getC lyot a b) (fun k l => getC mask k l)
+    (fun a b => getC f a b) j i
+
 end Model.C03.Exec
